@@ -60,6 +60,8 @@ class Program:
     def __init__(self, mir_text, src_root, features=()):
         self.fns, self.consts, self.order = parse_mir(mir_text)
         self.src_root, self.features = src_root, set(features)
+        # allocN (static: NAME, ...) listings that follow a function body: (position, alloc id) -> static name
+        self.static_allocs = [(m.start(), m.group(1), m.group(2)) for m in re.finditer(r'^(alloc\d+) \(static: (.+?), size: ', mir_text, re.M)]
         self.by_type_method = {}     # (Type, method) -> [Fn]
         self.by_trait_impl = {}      # (Type, Trait, method) -> Fn
         self.defaults = {}           # (Trait, method) -> Fn
@@ -604,11 +606,36 @@ class Exec:
                 raise Unmodelled('promoted ' + c[1])
             return self.run_body(pf, {})
         if k == 'path':
+            m = re.match(r'\{(alloc\d+): &', c[1])
+            if m:
+                return self.static_ref(m.group(1))
             # named constant / unit struct / fn item
             return Adt(c[1], None, [])
         if k == 'float':
             return c[1]
         raise Unmodelled('const %r' % (c,))
+
+    def static_ref(self, alloc):
+        """reference to a `static` item: one cell per static and per path (= per process run), initialised on first
+        use by running the static's own initialiser body from the dump"""
+        pos = getattr(self.cur_fn, 'pos', 0)
+        name = None
+        for p_, a_, n_ in self.prog.static_allocs:
+            if a_ == alloc and p_ > pos:
+                name = n_
+                break
+        if name is None:
+            raise Unmodelled('static behind ' + alloc)
+        cells = self.__dict__.setdefault('statics', {})
+        if name not in cells:
+            tail = '::'.join(strip_generics(name).split('::')[-2:])
+            cands = [fs_[0] for n_, fs_ in self.prog.consts.items() if getattr(fs_[0], 'kind', '').startswith('static') and
+                     '::'.join(strip_generics(n_).split('::')[-2:]) == tail]
+            if len(cands) != 1:
+                raise Unmodelled('initialiser of static %s (%d candidates)' % (name, len(cands)))
+            cells[name] = [None]
+            cells[name][0] = self.run_body(cands[0], {})
+        return Ref(cells[name], 0)
 
     # ------------------------------------------------------------------ integer arithmetic
     def int_info(self, ty):
